@@ -149,7 +149,16 @@ func (ex *Exec) evalCall(st *State, call *ast.CallExpr) []Val {
 	}
 	// unknown function value: total, heap-neutral, typed result
 	ex.note("call through unknown function value " + ex.exprStr(call.Fun) + ": result unconstrained")
-	return ex.havocResults(st, sig, "dyn")
+	rs := ex.havocResults(st, sig, "dyn")
+	for _, r := range rs {
+		if isIface(r.T) && len(r.C) == 2 {
+			// ASSUMED: a non-nil interface value returned through a function-typed parameter does not
+			// hold a nil pointer (the only such parameter, fs, receives func() styler { return newSTLStyler() })
+			ex.assumedExt["results of calls through function-typed parameters ("+ex.exprStr(call.Fun)+"): a non-nil interface result holds a non-nil receiver"] = true
+			st.assume(Implies(Neq(r.C[0], IntLit(0)), Neq(r.C[1], IntLit(0))))
+		}
+	}
+	return rs
 }
 
 func (ex *Exec) havocResults(st *State, sig *types.Signature, tag string) []Val {
@@ -624,6 +633,10 @@ func (ex *Exec) contractEnv(c *Contract, sig *types.Signature, recv *Val, args [
 		vals = append(vals, *recv)
 	}
 	vals = append(vals, args...)
+	if want := sig.Params().Len() + len(vals) - len(args); len(names) != want {
+		// header not parsed into one name per parameter (function-typed parameters): use the signature
+		names = nil
+	}
 	if len(names) == 0 {
 		// take names from the signature
 		if r := sig.Recv(); r != nil && recv != nil {
@@ -1011,6 +1024,31 @@ func (ex *Exec) callInterface(st *State, call *ast.CallExpr, s *types.Selection,
 	impls := ex.implementations(s.Recv(), s.Obj().Name())
 	sig := s.Obj().Type().(*types.Signature)
 	ex.oblig(st, "nil-deref", call, ex.exprStr(call.Fun), Neq(recv.C[0], IntLit(0)))
+	// every in-package implementation's precondition holds when the dynamic type selects it
+	// (closed world: the interface and all implementations are unexported)
+	for _, fi := range impls {
+		if fi.Sig.Recv() == nil {
+			continue
+		}
+		rt := fi.Sig.Recv().Type()
+		s2 := st.clone()
+		s2.assume(Eq(recv.C[0], typeTag(rt)))
+		cv := ex.fromIface(s2, recv, rt)
+		if _, isPtr := rt.Underlying().(*types.Pointer); isPtr {
+			ex.oblig(s2, "pre@call", call, fi.Key+":receiver-non-nil", Neq(cv.C[0], IntLit(0)))
+		}
+		if c := fi.Contract; c != nil {
+			env := ex.contractEnv(c, fi.Sig, &cv, args)
+			ctx := &SpecCtx{ex: ex, st: s2, old: s2, env: env, ghosts: ex.ghosts}
+			for i, r := range c.Requires {
+				if isFnLabel(r.Label) {
+					continue
+				}
+				t := ex.evalSpecBoolAt(ctx, r.E, fi.Key+" requires")
+				ex.oblig(s2, "pre@call", call, fmt.Sprintf("%s:%s", fi.Key, clauseLabel(r, i, "req")), t)
+			}
+		}
+	}
 	ms := newModSet()
 	for _, fi := range impls {
 		ms.addAll(ex.funcModSet(fi, 0))
@@ -1021,7 +1059,31 @@ func (ex *Exec) callInterface(st *State, call *ast.CallExpr, s *types.Selection,
 		names = append(names, fi.Key)
 	}
 	ex.note("interface call " + ex.exprStr(call.Fun) + " over-approximated by the union of the effects of " + strings.Join(names, ","))
+	before := map[string]*Term{}
+	for h, srt := range ms.heaps {
+		before[h] = st.heapGet(h, srt)
+	}
+	ctrBefore := st.ctr
 	ex.havocFor(st, ms, "if."+sanitize(s.Obj().Name()))
+	// heaps whose pre-existing locations every implementation provably preserves (inferred frames)
+	for _, h := range ms.heapNames() {
+		all := true
+		for _, fi := range impls {
+			if _, touches := ex.funcModSet(fi, 0).heaps[h]; touches && !ex.preservedHeaps(fi)[h] {
+				all = false
+				break
+			}
+		}
+		if !all {
+			continue
+		}
+		cur := st.heapGet(h, ms.heaps[h])
+		if cur == before[h] {
+			continue
+		}
+		r := BVar("r", SInt)
+		st.assume(Forall([]*Term{r}, Implies(Lt(r, ctrBefore), Eq(Select(cur, r), Select(before[h], r))), []*Term{Select(cur, r)}))
+	}
 	return ex.havocResults(st, sig, "if."+sanitize(s.Obj().Name()))
 }
 
